@@ -320,6 +320,18 @@ class MakeValidOrientation(Contract):
         F.assume(z3.And(R(a) <= 7 * PI, R(a) >= -7 * PI))
         return {"a": a, "args": [a]}
 
+    # use as a callee contract (modular calls from other contracts)
+    def summary_inputs(self, F, args, kwargs):
+        return {"a": args[0], "args": [args[0]]}
+
+    def summary_pre(self, F, inp):
+        return z3.And(R(inp["a"]) <= 7 * PI, R(inp["a"]) >= -7 * PI)
+
+    def summary_result(self, F, inp):
+        from pyvc.core import pytype, is_float_type
+        ty = pytype(inp["a"])
+        return F.ctx.fresh("make_valid_orientation", ty if is_float_type(ty) else float)
+
     def post(self, F, inp, out):
         a = inp["a"]
         yield _no_exc(out)
@@ -517,3 +529,12 @@ class AngleIntervalShift(Contract):
             s, e = R(F.attr(out.value, "start")), R(F.attr(out.value, "end"))
             yield ("ends in [-2pi, 2pi], start <= end", z3.And(s >= -TWO_PI, e <= TWO_PI, s <= e))
             yield ("th in result <=> th - k in self (mod 2pi)", amem(th, s, e, 3) == amem(R(th) - R(k), a, b, 4))
+
+
+from pyvc.runner import summary_provider, summary_of  # noqa: E402
+
+
+@summary_provider("make_valid_orientation")
+def _mvo_summary():
+    c = [x for x in __import__("pyvc.contract", fromlist=["REGISTRY"]).REGISTRY if isinstance(x, MakeValidOrientation)]
+    return summary_of(c[0] if c else MakeValidOrientation())
